@@ -119,6 +119,14 @@ def check(ctx):
                           'string form never agrees with the list form', node=r)
             continue
         sh = join_shape(ctx, to_str, r.value)
+        via_block = [c for c in ast.walk(r.value) if isinstance(c, ast.Call) and
+                     prog.resolve_expr_symbol(to_str.module, c.func) is tb]
+        if sh is None and via_block:
+            run.violation('C18.agree', to_str.module.name, to_str.qualname, r,
+                          'the string form is produced by a TextBlock built from the list form: TextBlock splits every item again '
+                          'on all line boundaries (\\r, \\f, U+2028 ...), so a line containing one is broken in two and the '
+                          'string form no longer agrees with the list form', node=r)
+            continue
         if sh is None:
             run.error('C18.agree', to_str.module.name, to_str.qualname, r,
                       'string form is not recognised as <sep>.join(<lines>) + <suffix>', node=r)
